@@ -55,6 +55,9 @@ type attached struct {
 	rs     *rtspCons
 	j      int // len(P) when it joined
 	ends0  int // world.endsSeen when it joined
+	// playIdx: len(P) when the harness first saw the RTSP consumer's PLAY completed (-1: not yet): everything published
+	// from there on was published to a playing subscriber
+	playIdx int
 	minInc int // content of earlier incarnations must never reach it
 	gone   bool
 }
@@ -95,6 +98,7 @@ type world struct {
 	late     []*stub.Conn // accepted, handshake withheld until the input has ended (PushLate)
 	tickSeq  uint32
 	curInc   int
+	bounds   [][2]int // P index range of every incarnation published so far
 	units    map[string]unitRef // every published elementary unit by content
 	pullOrigin *stub.RtmpStub // stub origin of relay pull incarnations
 	endsSeen int32              // number of input ends so far (atomic: RTSP consumer goroutines read it) (consumers remember how many they witnessed)
@@ -204,8 +208,26 @@ func (w *world) baselineCheck(base0 procState) *pbt.Violation {
 	how := "after ServerManager.Dispose"
 	if !w.disposed {
 		how = "after every session had left and one sweep of the manager's ticker"
+		// the group's disposal runs the teardown routine once more: nothing may be finalised a second time
+		w.s.HookMu.Lock()
+		stops0 := w.s.HookStops
+		w.s.HookMu.Unlock()
+		fs0 := w.fsOps()
+		rec0 := w.recordingSizes()
 		if w.s.Call("VerifTick", func() { w.s.SM.VerifTick(7) }) {
 			return w.panicV()
+		}
+		w.s.HookMu.Lock()
+		stops1 := w.s.HookStops
+		w.s.HookMu.Unlock()
+		if stops1 != stops0 {
+			return pbt.V("hook/stop-repeated", "the removal of the empty group called OnStop again: %d calls before the sweep, %d after, for %d hook starts", stops0, stops1, w.s.HookStarts)
+		}
+		if fs1 := w.fsOps(); fs1 != fs0 {
+			return pbt.V("hls/touched-at-group-disposal", "the removal of the empty group performed %d more HLS file operations (every segment and the playlist had been finalised when the input left)", fs1-fs0)
+		}
+		if rec1 := w.recordingSizes(); rec1 != rec0 {
+			return pbt.V("record/touched-at-group-disposal", "the removal of the empty group changed the recordings: before %s, after %s", rec0, rec1)
 		}
 		for _, g := range w.s.SM.StatAllGroup() {
 			if g.StreamName == streamName {
@@ -253,7 +275,7 @@ const leakGuard = 5 * time.Second
 
 func (w *world) join(ci int, inc int) *pbt.Violation {
 	k := w.c.Cons[ci]
-	a := &attached{idx: ci, spec: k, j: len(w.P), minInc: inc, ends0: int(atomic.LoadInt32(&w.endsSeen))}
+	a := &attached{idx: ci, spec: k, j: len(w.P), minInc: inc, ends0: int(atomic.LoadInt32(&w.endsSeen)), playIdx: -1}
 	switch k.Kind {
 	case "rtmp":
 		a.rc = lalclient.NewRtmpSub(w.s, "live", streamName)
@@ -497,6 +519,7 @@ func (w *world) incarnation(i int) *pbt.Violation {
 				}
 			}
 		}
+		w.notePlaying()
 		if k < len(in.Items) {
 			it := in.Items[k]
 			if v := w.send(inp, it, in.Codecs); v != nil {
@@ -526,6 +549,7 @@ func (w *world) incarnation(i int) *pbt.Violation {
 		}
 	}
 	w.quiesce(inp, "after the last message")
+	w.bounds = append(w.bounds, [2]int{incStart, len(w.P)})
 	if v := w.panicV(); v != nil {
 		return v
 	}
@@ -733,6 +757,10 @@ func (w *world) leave(a *attached) *pbt.Violation {
 		}
 		return w.checkMsgConsumer(a, recs)
 	}
+	if v := w.tsHeldBack(a); v != nil {
+		a.ts.Close()
+		return v
+	}
 	body := a.ts.Body()
 	a.ts.Close()
 	a.ts.Conn.WaitPeerDone(lalclient.IdleTimeout)
@@ -748,4 +776,76 @@ func allStacks() string {
 		}
 		buf = make([]byte, 2*len(buf))
 	}
+}
+
+// notePlaying records, for RTSP consumers, the first published index at which
+// the harness saw their PLAY completed.
+func (w *world) notePlaying() {
+	for _, a := range w.cons {
+		if a.gone || a.rs == nil || a.playIdx >= 0 {
+			continue
+		}
+		if _, playing := a.rs.nframes(); playing {
+			a.playIdx = len(w.P)
+		}
+	}
+}
+
+// endKeeps: lal keeps the subscribers attached when incarnation i ends this way
+// (an idle sweep / shutdown disposes them together with the input, and what
+// was queued for them may be dropped).
+func (w *world) endKeeps(i int) bool {
+	in := w.c.Incs[i]
+	switch in.End {
+	case "kick", "stop":
+		return true
+	case "close":
+		return in.Input != "gb"
+	}
+	return false
+}
+
+// mediaAfter counts the audio / video messages of incarnation i published at
+// index >= from and says whether a key frame is among them.
+func (w *world) mediaAfter(i, from int) (n int, key bool) {
+	if i >= len(w.bounds) {
+		return 0, false
+	}
+	lo, hi := w.bounds[i][0], w.bounds[i][1]
+	if from > lo {
+		lo = from
+	}
+	for x := lo; x < hi; x++ {
+		if w.P[x].kind == "video" || w.P[x].kind == "audio" {
+			n++
+		}
+		key = key || w.P[x].key
+	}
+	return
+}
+
+// incAt returns the incarnation that P index x belongs to (a consumer that
+// joined between two incarnations, or at the very end of one, belongs to the
+// next); -1 if that incarnation has not been published (yet).
+func (w *world) incAt(x int) int {
+	for i, b := range w.bounds {
+		if x < b[1] || (x == b[0] && b[0] == b[1]) {
+			return i
+		}
+	}
+	return -1
+}
+
+// recordingSizes renders the names and sizes of all recordings.
+func (w *world) recordingSizes() string {
+	out := ""
+	for _, d := range []string{"flv", "ts"} {
+		ents, _ := os.ReadDir(filepath.Join(w.s.Dir, d))
+		for _, e := range ents {
+			if fi, err := e.Info(); err == nil {
+				out += fmt.Sprintf("%s/%s=%d ", d, e.Name(), fi.Size())
+			}
+		}
+	}
+	return out
 }
